@@ -250,7 +250,76 @@ fn advance(t: &mut embedded_sdmmc::Timestamp, rng: &mut Rng) {
 }
 
 /// Run one case. Violations are recorded in `rep` under property `prop`.
+/// One case; when a GENERATED history exhibits a failing input (impl-vs-spec), the history is shrunk: operations
+/// are removed (whole tail first, then one by one, to a fixed point) as long as re-running the remaining ones as a
+/// fixed script still produces a violation with the same signature; the minimal operation list is attached to the
+/// violation's replay as `shrunk_ops`.
 pub fn run_case(rng: &mut Rng, sc: &Scenario, cfg: &RunCfg, model: &mut Model, rep: &mut Report, case_tag: &str) -> CaseResult {
+    let v0 = rep.violations.len();
+    let res = run_case_inner(rng, sc, cfg, model, rep, case_tag);
+    if cfg.script.is_some() || cfg.reenter || res.ops.len() < 3 {
+        return res;
+    }
+    let target = match rep.violations[v0..].iter().position(|v| v.kind == "impl-vs-spec") {
+        Some(k) => v0 + k,
+        None => return res,
+    };
+    let sig = rep.violations[target].signature.clone();
+    let fails = |ops: &Vec<Op>, model: &mut Model| -> bool {
+        let mut cfg2 = cfg.clone();
+        cfg2.script = Some(ops.clone());
+        cfg2.nops = ops.len();
+        cfg2.faults = vec![];
+        cfg2.retry_expect = None;
+        let mut tmp = Report::new("shrink");
+        let mut r = Rng::new(7);
+        run_case_inner(&mut r, sc, &cfg2, model, &mut tmp, "shrink");
+        tmp.violations.iter().any(|v| v.kind == "impl-vs-spec" && v.signature == sig)
+    };
+    let mut ops = res.ops.clone();
+    // the fault-free scripted replay must reproduce at all (faulted cases are not shrunk)
+    if !cfg.faults.is_empty() || !fails(&ops, model) {
+        return res;
+    }
+    let mut budget = 120usize;
+    // 1. cut the tail
+    let mut hi = ops.len();
+    while hi > 1 && budget > 0 {
+        let mid = hi / 2;
+        let cand: Vec<Op> = ops[..mid].to_vec();
+        budget -= 1;
+        if fails(&cand, model) {
+            hi = mid;
+            ops = cand;
+        } else {
+            break;
+        }
+    }
+    // 2. remove single operations until nothing can be removed
+    let mut changed = true;
+    while changed && budget > 0 {
+        changed = false;
+        let mut i = ops.len();
+        while i > 0 && budget > 0 {
+            i -= 1;
+            let mut cand = ops.clone();
+            cand.remove(i);
+            budget -= 1;
+            if !cand.is_empty() && fails(&cand, model) {
+                ops = cand;
+                changed = true;
+            }
+        }
+    }
+    rep.count("shrunk-cases");
+    if let J::Obj(kv) = &mut rep.violations[target].replay {
+        kv.push(("shrunk_ops".to_string(), J::Arr(ops.iter().map(|o| J::s(o.show())).collect())));
+        kv.push(("shrunk_from".to_string(), J::i(res.ops.len() as i128)));
+    }
+    res
+}
+
+fn run_case_inner(rng: &mut Rng, sc: &Scenario, cfg: &RunCfg, model: &mut Model, rep: &mut Report, case_tag: &str) -> CaseResult {
     let mut sess = Session::new(sc.blocks.clone(), sc.limits, sc.id_offset);
     let mut gs = GState::new(sc);
     let mut lines: Vec<Line> = Vec::new();
